@@ -506,7 +506,47 @@ def run_fill(model, sc: Scenario, ctx=None):
                 return BoundLib("identity", self) if name == "to_numpy" else self
             if name in ("any", "all"):
                 return BoundLib(f"boolmat.{name}", self)
+            if name == "abs":
+                return BoundLib("identity_method", self)        # the zero test below is on magnitudes anyway
             raise ev.err(f"attribute {name} of a block of columns", node, mod)
+
+        def sym_compare(self, ev, op, other, flipped, n, mod):
+            # block <= atol / block < atol (or atol >= block): the elementwise zero test with the caller's tolerance
+            if isinstance(op, (ast.LtE, ast.Lt)) and not flipped or isinstance(op, (ast.GtE, ast.Gt)) and flipped:
+                sc.drop_tests.append(other)
+                out = ColsMat(self.names, self.vals)
+                out.is_bool = True
+                return out
+            raise ev.err("comparison of a block of columns that is not a zero test", n, mod)
+
+    class FlagSeries:
+        """one truth value per column of a block (the result of .any(axis=0) / .all(axis=0)), labelled by the column names"""
+
+        def __init__(self, names, flags):
+            self.names, self.flags = list(names), list(flags)
+            self.items = list(flags)
+
+        def sym_getattr(self, ev, name, node, mod):
+            if name == "index":
+                return FlagIndex(self)
+            if name in ("to_numpy", "values", "tolist"):
+                return BoundLib("identity", Tup(self.flags, "list"))
+            raise ev.err(f"attribute {name} of a per-column truth vector", node, mod)
+
+        def sym_iter(self, ev, n, mod):
+            return list(self.flags)
+
+    class FlagIndex:
+        def __init__(self, fs):
+            self.fs = fs
+
+        def sym_subscript(self, ev, idx, n, mod):
+            if idx is self.fs or (isinstance(idx, Tup) and list(idx.items) == self.fs.flags):
+                return Tup([nm for nm, fl in zip(self.fs.names, self.fs.flags) if fl], "list")
+            raise ev.err("per-column index selected by something other than its own truth vector", n, mod)
+
+        def sym_iter(self, ev, n, mod):
+            return list(self.fs.names)
 
     def isclose(ev, a, k):
         m = a[0]
@@ -539,7 +579,7 @@ def run_fill(model, sc: Scenario, ctx=None):
                 return any(flags) if kind == "any" else all(flags)
             if _const_int(axis) != 0:
                 raise AnalysisError("reduction of the zero test along the column axis")
-            return Tup(flags, "list")
+            return FlagSeries(m.names, flags) if len(m.names) == len(flags) and "?" not in m.names else Tup(flags, "list")
         return f
 
     def df_items(ev, a, k):
